@@ -9,6 +9,7 @@ Props/C02.lean). A second, model-free oracle compares both with what the generat
 
 from __future__ import annotations
 
+import copy
 import json
 import re
 import traceback
@@ -587,6 +588,7 @@ def run(ctx: Ctx) -> None:
         drv.close()
     repeat_stream(ctx, sessions, [c for c in cases if c['origin'] == 'generated'], 400 if quick else 8000)
     other_session_stream(ctx, sessions, [c for c in cases if c['origin'] == 'generated'], 300 if quick else 6000)
+    reannounce_stream(ctx, sessions, [c for c in cases if c['origin'] == 'generated'], 400 if quick else 6000)
     malformed_stream(ctx, sessions, [c for c in cases if c['origin'] == 'generated'], 300 if quick else 3000)
     for k, v in seen_sig.items():
         ctx.notes.append(f'failure class {k[0]} {k[1]}: {v} case(s)')
@@ -669,6 +671,89 @@ def other_session_stream(ctx: Ctx, sessions: list, cases: list, n: int) -> None:
     AttributeCollection.previous = b''
 
 
+def reannounce_stream(ctx: Ctx, sessions: list, cases: list, n: int) -> None:
+    """A next-hop failover: the peer announces the same routes again with the same attributes and ANOTHER next hop
+    (MP_REACH_NLRI: the next hop is not among the attributes; classic IPv4: it is the NEXT_HOP attribute).  The
+    Adj-RIB-In must then hold every route with the next hop of the second UPDATE — as the reference reads it from the
+    second UPDATE alone."""
+    rng = ctx.rng
+    picks = [c for c in cases if 'sem' in c and c.get('model', '').startswith('ok') and (any(a['code'] == 14 and 'nlris' in a for a in c['sem']['a']) or c['sem']['n'])]
+    if len(picks) > n:
+        picks = rng.sample(picks, n)
+    if not picks:
+        return
+    drv = common.Driver('drv_wire')
+    seen: set = set()
+    try:
+        for c in picks:
+            if ctx.time_left() < 10:
+                break
+            S = sessions[c['s']]
+            u2 = copy.deepcopy(c['sem'])
+            changed = False
+            for a in u2['a']:
+                if a['code'] == 14 and 'nlris' in a:
+                    old = a['nh']
+                    for _ in range(8):
+                        a['nh'] = wiregen.gen_nexthop(rng, tuple(a['fam']), S.shape(), set())
+                        if a['nh'] != old and len(a['nh']) == len(old):
+                            changed = True
+                            break
+                    else:
+                        a['nh'] = old
+                elif a['code'] == 3 and u2['n']:
+                    old = a['f'][0]
+                    a['f'] = [wiregen.ip4(rng)]
+                    changed = changed or a['f'][0] != old
+            if not changed:
+                continue
+            hex2 = drv.ask(f'wire encode {S.params()} {wiregen.render(u2)}')
+            if not hex2 or hex2.startswith(('err', 'bad')):
+                continue
+            body2 = bytes.fromhex(hex2) if hex2 != '-' else b''
+            line2 = drv.ask(f'wire decode {S.params()} {hex2}')
+            if not line2.startswith('ok'):
+                continue
+            first, second = S.decode(c['body']), S.decode(body2)
+            if first['kind'] != 'ok' or second['kind'] != 'ok' or first.get('report') is None or second.get('report') is None:
+                continue
+            if first['report'].get('other_families') or second['report'].get('other_families'):
+                continue
+            S.clear_rib()
+            try:
+                S.store(first['msg'])
+                S.store(second['msg'])
+            except Exception as e:  # noqa: BLE001
+                ctx.count('reannounce:store-raised:' + type(e).__name__)
+                S.clear_rib()
+                continue
+            ctx.evaluations += 1
+            ctx.count('reannounce:next-hop-changed')
+            model2 = ref_report(S, line2)
+            got = S.adj_rib_in()
+            S.clear_rib()
+            bad = []
+            for item in model2['ann']:
+                fam, nh, nl = item.split('/')
+                f = nl.split(':')
+                key = f'{fam}/' + ':'.join([f[0], '-'] + f[2:])
+                if key in got and got[key][0] != nh:
+                    bad.append((key, got[key][0], nh))
+            if not bad:
+                continue
+            canon = {'what': 'reannounce:rib-next-hop', 'families': sorted({k.split('/')[0] for k, _, _ in bad})}
+            key = json.dumps(canon, sort_keys=True)
+            ctx.count('fail:reannounce')
+            if key in seen:
+                continue
+            seen.add(key)
+            k0, had, want = bad[0]
+            ctx.failures.append(Failure('update-class', canon, {'shape': S.shape() | {'addpath': S.addpath, 'extnh': S.extnh}, 'body': c['body'].hex(), 'body2': body2.hex(), 'reannounce': True},
+                                        f'the same route announced again with another next hop: Adj-RIB-In holds {k0} via {had}, the second UPDATE says {want}'))
+    finally:
+        drv.close()
+
+
 def malformed_stream(ctx: Ctx, sessions: list, cases: list, n: int) -> None:
     """Single-point corruptions and truncations of generated bodies: NOT part of the property (C08 and
     C03 judge what must happen to them). Run to show where the two readings part on malformed input:
@@ -706,6 +791,25 @@ def replay(path: str) -> int:
     OPAQUE_CODES.update(wiregen.exabgp_only_codes())
     OPAQUE_CODES.discard(26)
     S = wirerig.Session(addpath=[tuple(x) for x in sh['addpath']], asn4=sh['asn4'], extnh=[tuple(x) for x in sh['extnh']], aigp=sh.get('aigp', False))
+    if rp.get('reannounce'):
+        b1, b2 = bytes.fromhex(rp['body']), bytes.fromhex(rp['body2'])
+        first, second = S.decode(b1), S.decode(b2)
+        S.clear_rib()
+        S.store(first['msg'])
+        S.store(second['msg'])
+        got = S.adj_rib_in()
+        print('first  :', json.dumps(first['report'].get('ann'))[:400])
+        print('second :', json.dumps(second['report'].get('ann'))[:400])
+        print('Adj-RIB-In:', {k: v[0] for k, v in got.items()})
+        bad = 0
+        for item in second['report'].get('ann', []):
+            fam, nh, nl = item.split('/')
+            f = nl.split(':')
+            key = f'{fam}/' + ':'.join([f[0], '-'] + f[2:])
+            if key in got and got[key][0] != nh:
+                print('STALE', key, 'held via', got[key][0], 'announced via', nh)
+                bad += 1
+        return 1 if bad else 0
     if rp.get('other_first'):
         o = rp['other']
         T = wirerig.Session(addpath=[tuple(x) for x in o['addpath']], asn4=o['asn4'], extnh=[tuple(x) for x in o['extnh']], aigp=o.get('aigp', False))
